@@ -57,6 +57,15 @@ def check_zeros(model, prob, r, synth=True):
                 hit = got & set(map(tuple, zs))
                 if hit:
                     return f'synthetic records in structurally impossible cell {dict(zip(zc, sorted(hit)[0]))}'
+            # "the remaining mass still sums to the total": also after records were drawn (with another row count) from this very model
+            model.synthetic_data(rows=int(r.choice([7, 50, 250])))
+            for t in list(tups) + [tuple(c) for c in model.cliques]:
+                v = np.asarray(model.project(tuple(t)).values, dtype=float).flatten()
+                if np.isnan(v).any() or not close(float(v.sum()), total, 1e-6, 1e-9):
+                    return f'after synthetic records were drawn from the model, the answer for {list(t)} sums to {float(v.sum())}, total {total}'
+                mask = estgen.declared_zero_mask(list(t), sizes, zeros)
+                if any(m and abs(x) > thr for m, x in zip(mask, v)):
+                    return f'after synthetic records were drawn from the model, the answer for {list(t)} puts mass on a structurally impossible cell'
     return None
 
 
